@@ -426,12 +426,18 @@ class XBuffer(ABC):
 
         # no free slot check if can be allocated then try to grow
         sizepa = size + alignment - 1
-        if sizepa > self.capacity:
-            self.grow(sizepa)
-        elif self.grow_step is not None:
-            self.grow(self.grow_step)
-        else:
-            self.grow(self.capacity)
+        while True:
+            if sizepa > self.capacity:
+                self.grow(sizepa)
+            elif self.grow_step is not None:
+                self.grow(self.grow_step)
+            else:
+                self.grow(self.capacity)
+            # several small steps may be needed: grow until the free space
+            # at the end holds the request (the other chunks did not change)
+            last = self.chunks[-1]
+            if last.end >= _align(last.start, alignment) + size:
+                break
 
         # try again
         return self.allocate(size, align=align)
